@@ -13,6 +13,7 @@ CLAIM = {
  'text': ('PARTIAL. Proved in Lean 4 for all rational scale edges, positions and values (wrap_in_track, wrap_identity, '
           'wrap_unique; wrap_log/wrap_log_l2p/wrap_log_nonpositive for ANY function in place of log10; offScale_*; '
           'interp_points_on_edges, interp_cross_count_M4, filter_keeps_first (every MAX >= 1, every list), '
+          'plots_mem_iff / plots_order_independent (exactly the films with data are plotted, in any table order), '
           'ret_interpolate_points_M4): every '
           'value is mapped to a wrap count and a position with leftP <= pos < rightP and pos + wrap*width = L2P(value), '
           'that pair is unique, a non-positive value on a log scale is refused, and every interpolated wrap point lies '
@@ -37,7 +38,9 @@ RULE = ('wrap: scale edges/positions/values drawn from classes (typical log scal
         '5e-324, zero, negative on log) x all back-up modes; non-trivial when the wrap count is non-zero or the value is '
         'refused; distinct by (kind, scale class, value class, clipped wrap count). interp/filter: random and '
         'exhaustive small wrap jumps / pair counts. svg: one case = (input kind LIS|LAS, format or generated FILM/PRES, '
-        'data class, direction); non-trivial when at least one curve polyline with >= 2 points was produced.')
+        'data class, direction); non-trivial when at least one curve polyline with >= 2 points was produced. plotlogs: '
+        'TotalDepth.PlotLogs.PlotLogPasses on generated LIS files (FILM tables of 1..4 films, every subset of films without '
+        'data, 1-2 log passes) and LAS files with a list of LgFormats; distinct by (films, which have no data).')
 ASSUMPTIONS = ['values and scale edges are finite IEEE doubles; for the in-track/identity oracle their magnitudes are such '
                'that (v-lL)/(rL-lL) and v/lL do not overflow or underflow (the overflow class is reported separately)',
                'SVG coordinates are printed with one decimal (points) / three decimals (viewBox): checks allow 0.06 units',
@@ -49,7 +52,7 @@ TRUSTED = ['modelled, not verified: IEEE-754 double rounding of PRESCfg arithmet
            'not modelled: Plot._plotSingleOutput buffering, PlotRoll/Coord/SVGWriter/XmlWrite (exercised by the SVG oracle only)',
            'lxml as the SVG well-formedness judge']
 
-ANCHOR_FILES = ['src/TotalDepth/util/plot/PRESCfg.py', 'src/TotalDepth/util/plot/Plot.py']
+ANCHOR_FILES = ['src/TotalDepth/util/plot/PRESCfg.py', 'src/TotalDepth/util/plot/Plot.py', 'src/TotalDepth/PlotLogs.py']
 
 BACKUPS = {'NONE': (1, -1), 'ALL': (0, 0), 'ONCE': (-1, 1), 'TWICE': (-2, 2), 'LEFT': (0, -1), 'RIGHT': (1, 0)}
 TWO = Fr(2)
@@ -583,8 +586,9 @@ def run(ctx):
     run_offscale(ctx)
     run_interp(ctx)
     run_filter(ctx)
-    from props import c19_svg
+    from props import c19_svg, c19_plotlogs
     c19_svg.run_svg(ctx)
+    c19_plotlogs.run_plotlogs(ctx)
     for k in ('fp_floor_boundary', 'fp_no_fraction', 'fp_pos_equals_rightP', 'fp_overflow_not_in_model', 'filter_drops_last_pair'):
         ctx.note(f'{k}: {ctx.stats.get(k, 0)} case(s) on this run')
 
@@ -632,6 +636,9 @@ def replay(ctx, rec):
     elif op == 'svg':
         from props import c19_svg
         return c19_svg.replay_svg(ctx, case)
+    elif op == 'plotlogs':
+        from props import c19_plotlogs
+        return c19_plotlogs.replay_plotlogs(ctx, case)
     else:
         return True, 'nothing to replay (no concrete failing input was recorded)'
     new = [f for f in ctx.failures[n0:] if f['finding'] is None]
